@@ -328,6 +328,9 @@ pub fn tape_suite(
         }
         if rep.failure.is_none() {
             if let Some((tape, msg)) = fail {
+                // proptest's vector shrinking deletes and lowers words; two cheap deterministic
+                // passes on top of it (prefix truncation, zeroing blocks) simplify what is left
+                let tape = post_shrink(f, tape);
                 // re-run the minimal tape once more to obtain its description and signature
                 let (v, desc) = run_case(f, &tape, true);
                 let (msg2, sig) = match v {
@@ -346,6 +349,55 @@ pub fn tape_suite(
     }
     rep.distinct_nontrivial = keys.len() as u64;
     rep
+}
+
+/// Greedy simplification of a failing tape: keep a change whenever the case still fails.
+/// Bounded by attempts and wall clock; purely deterministic.
+fn post_shrink(f: &(dyn Fn(&mut Gen) -> Verdict + Sync), mut tape: Vec<u32>) -> Vec<u32> {
+    let t0 = Instant::now();
+    let limit = shrink_secs().min(15);
+    let fails = |t: &[u32]| -> bool { run_case(f, t, false).0.is_fail() };
+    let mut attempts = 0u32;
+    // 1. shortest failing prefix (an exhausted tape yields the simplest choices)
+    let (mut lo, mut hi) = (0usize, tape.len());
+    while lo < hi && attempts < 64 {
+        let mid = (lo + hi) / 2;
+        attempts += 1;
+        if fails(&tape[..mid]) {
+            hi = mid;
+        } else {
+            lo = mid + 1;
+        }
+    }
+    if hi < tape.len() && fails(&tape[..hi]) {
+        tape.truncate(hi);
+    }
+    // 2. zero blocks of words, large blocks first, from the end toward the start
+    for block in [256usize, 64, 16, 4, 1] {
+        let mut end = tape.len();
+        while end > 0 {
+            if attempts > 3000 || t0.elapsed().as_secs() >= limit {
+                return tape;
+            }
+            let start = end.saturating_sub(block);
+            if tape[start..end].iter().any(|w| *w != 0) {
+                let saved: Vec<u32> = tape[start..end].to_vec();
+                for w in tape[start..end].iter_mut() {
+                    *w = 0;
+                }
+                attempts += 1;
+                if !fails(&tape) {
+                    tape[start..end].copy_from_slice(&saved);
+                }
+            }
+            end = start;
+        }
+    }
+    // trailing zeros carry no information
+    while tape.last() == Some(&0) {
+        tape.pop();
+    }
+    tape
 }
 
 fn worker(
